@@ -11,7 +11,7 @@ if ! git apply --check "$patch" 2>/dev/null; then echo "PATCH DOES NOT APPLY: $p
 git apply "$patch"
 cd /verif
 for p in "$@"; do
-  VERIF_REPO=$chk ./check "$p" --no-evidence 2>&1 | grep -v "^VIOLATION" | cut -c1-300 | head -8
+  VERIF_REPO=$chk ./check "$p" --no-evidence 2>&1 | grep -v "^VIOLATION\|^KNOWN-FINDING" | cut -c1-300 | head -8
   echo "exit=${PIPESTATUS[0]}"
 done
 git -C "$chk" checkout -q -- .
